@@ -141,7 +141,7 @@ impl Model for VelModel {
     fn key(&self, s: &VState) -> String {
         let now = s.w().now();
         let rel = |l: &Vec<(u64, u64)>| l.iter().filter(|(t, _)| now - *t <= WINDOW).map(|(t, a)| (now - *t, *a)).collect::<Vec<_>>();
-        format!("{}|{}|{:?}|{:?}", fp(&s.w().snapshot()), now % BUCKET, rel(&s.ghost.pay), rel(&s.ghost.fee))
+        format!("{}|{}|{:?}|{:?}|{}", fp(&s.w().snapshot()), now % BUCKET, rel(&s.ghost.pay), rel(&s.ghost.fee), fp(&serde_json::json!(s.w().raw_velocity())))
     }
 
     fn apply(&self, s: &mut VState, op: &Op, check: bool, vios: &mut Vec<Vio>) {
